@@ -16,6 +16,10 @@ def plan(tier, seed):
         jobs.append(j)
     jobs.append(ch("C17", F, "h_prealloc", t, ["api.ParquetFile.pre_allocate", "api._pre_allocate",
                                                "api.ParquetFile._dtypes", "api.ParquetFile.check_categories"]))
+    jobs.append(ch("C17", "vf/pyshim/h_c06.py", "h_slice_count", t, ["api.ParquetFile.__getitem__", "api.ParquetFile.count",
+                                                                    "api.ParquetFile.info"]))
+    jobs.append(ch("C17", "vf/pyshim/h_c06.py", "h_slice_state", t, ["api.ParquetFile.__getitem__",
+                                                                    "api.ParquetFile.__setstate__"]))
     extra = dict(
         explanation="The real ParquetFile._dtypes runs under CrossHair (z3) on a handle built from real schema and "
                     "row-group thrift objects whose row counts, NULL counts and statistics state (absent / without "
